@@ -286,7 +286,7 @@ def run_bandit(zoo, alg, n, row, *, gamma, mask_shape="flat", variant=""):
 
 
 # =================================================================================== PPO
-def _ppo(zoo, sp, key, squash=False):
+def _ppo(zoo, sp, key, squash=False, evolved=False):
     from agilerl.algorithms.ppo import PPO
 
     def build():
@@ -294,11 +294,16 @@ def _ppo(zoo, sp, key, squash=False):
         if squash:
             nc["squash_output"] = True
         ag = zoo.construct(PPO, OBS_SPACES["vector"](), sp, net_config=nc, share_encoders=True)
+        if evolved:
+            # the policy after a clone-and-mutate history through the real HPO code, ending on the freshly mutated agent
+            # (the individual that agent.test() evaluates before the next tournament clones it)
+            from .dist import evolve_agent
+            ag = evolve_agent(ag, 0)
         ag._stub = Stub()
         ag.actor.head_net.wrapped.forward = ag._stub
         return ag
 
-    return zoo.get(("PPO", key, squash), build)
+    return zoo.get(("PPO", key, squash, evolved), build)
 
 
 def run_ppo_disc(zoo, g, *, training, variant="", lv=None, pass_mask=True):
@@ -317,9 +322,9 @@ def run_ppo_disc(zoo, g, *, training, variant="", lv=None, pass_mask=True):
     return trace("PPO", f"training={training}", variant, "vector", [g], [ev], {"masked": bool(pass_mask)})
 
 
-def run_ppo_cont(zoo, g, *, training, squash, variant=""):
+def run_ppo_cont(zoo, g, *, training, squash, variant="", evolved=False):
     sp = space_of(g)
-    ag = _ppo(zoo, sp, ("cont", tuple(g["lo"]), tuple(g["hi"])), squash)
+    ag = _ppo(zoo, sp, ("cont", tuple(g["lo"]), tuple(g["hi"])), squash, evolved)
     ag.set_training_mode(training)
     rows = g["rows"]
     ag._stub.t = torch.tensor([[v / SC for v in r["x"]] for r in rows], dtype=torch.float32)
@@ -329,7 +334,7 @@ def run_ppo_cont(zoo, g, *, training, squash, variant=""):
         ev = project(g, out)
     except Exception as ex:
         ev = project(g, None, _exc(ex))
-    return trace("PPO", f"training={training}", variant or ("squash" if squash else "clip"), "vector", [g], [ev])
+    return trace("PPO", f"training={training}", variant or (("squash" if squash else "clip") + ("+evolved" if evolved else "")), "vector", [g], [ev])
 
 
 # =================================================================================== DDPG / TD3
@@ -611,7 +616,7 @@ def rerun(cfg, seed=0):
                           mask_shape=variant if variant in ("flat", "column") else "flat")
     if alg == "PPO":
         if g["kind"] == "cont":
-            return run_ppo_cont(zoo, g, training=training, squash=(variant == "squash"))
+            return run_ppo_cont(zoo, g, training=training, squash=variant.startswith("squash"), evolved=variant.endswith("+evolved"))
         return run_ppo_disc(zoo, g, training=training, variant=variant, lv=LV_LOGIT_X if variant == "logits-1e9" else None,
                             pass_mask=cfg.get("masked", True))
     if alg in ("DDPG", "TD3"):
